@@ -154,6 +154,10 @@ func TestMerge(t *testing.T) {
 	rapid.Check(t, func(t *rapid.T) {
 		schema := genSchema(t)
 		ns := rapid.IntRange(1, 4).Draw(t, "nsources")
+		if rapid.IntRange(0, 7).Draw(t, "many") == 0 {
+			// many sources: the loader sequence must stay "files first, the others as added" at every size
+			ns = rapid.IntRange(10, 28).Draw(t, "nmany")
+		}
 		srcs := make([]source, ns)
 		osargsUsed := false
 		for i := range srcs {
@@ -267,144 +271,159 @@ func TestMerge(t *testing.T) {
 		for i, k := range topKeys {
 			fs = append(fs, reflect.StructField{Name: fmt.Sprintf("P%d", i), Type: reflect.TypeOf((*any)(nil)).Elem(), Tag: reflect.StructTag(fmt.Sprintf(`prefix:"%s,required=false"`, k))})
 		}
-		consumer := reflect.New(reflect.StructOf(fs))
-		ops = append(ops, app.SetComponents(consumer.Interface()))
-		// the default argument loader reads os.Args when the App is created
-		saved := os.Args
-		if osargsUsed {
-			os.Args = append([]string{saved[0]}, argsOf(srcs[0])...)
-		} else {
-			os.Args = saved[:1]
+		consumerType := reflect.StructOf(fs)
+		cfgOps := ops
+		rounds := 1
+		if rapid.IntRange(0, 3).Draw(t, "again") == 0 {
+			// the very same option values configure a second App of the process (a shared option list): same result
+			rounds = 2
 		}
-		// environment variables spelled like the keys must not matter
-		var envs []string
-		for _, p := range schema {
-			for _, name := range []string{strings.ToUpper(strings.ReplaceAll(p, ".", "_")), strings.ToUpper(strings.Split(p, ".")[0])} {
-				if _, exists := os.LookupEnv(name); !exists {
-					os.Setenv(name, "from-environment")
-					envs = append(envs, name)
-				}
-			}
-		}
-		out := kit.RunApp(ops...)
-		for _, name := range envs {
-			os.Unsetenv(name)
-		}
-		os.Args = saved
-		var ss []string
-		for _, s := range srcs {
-			ss = append(ss, s.String())
-		}
-		desc := fmt.Sprintf("sources %s script %v", strings.Join(ss, " | "), script)
-		if !out.OK() {
-			t.Fatalf("C15: start failed: %v\n%s", out, desc)
-		}
-		// reference: files first (any order among files), then the others in list order
-		effective := []int{}
-		var files, others []int
-		for _, i := range list {
-			if i == -1 {
-				if osargsUsed {
-					others = append(others, 0)
-				}
-				continue
-			}
-			if srcs[i].Kind == "file" {
-				files = append(files, i)
+		for round := 0; round < rounds; round++ {
+			consumer := reflect.New(consumerType)
+			ops := append(append([]app.SettingOption(nil), cfgOps...), app.SetComponents(consumer.Interface()))
+			// the default argument loader reads os.Args when the App is created
+			saved := os.Args
+			if osargsUsed {
+				os.Args = append([]string{saved[0]}, argsOf(srcs[0])...)
 			} else {
-				others = append(others, i)
+				os.Args = saved[:1]
 			}
-		}
-		effective = append(append(effective, files...), others...)
-		want := map[string][]any{} // leaf -> admissible values
-		suppliers := map[string]int{}
-		for _, p := range schema {
-			var fileVals []any
-			var last any
-			has := false
-			for _, i := range files {
-				if v, ok := srcs[i].Leaves[p]; ok {
-					fileVals = append(fileVals, v)
-					suppliers[p]++
-				}
-			}
-			for _, i := range others {
-				if v, ok := srcs[i].Leaves[p]; ok {
-					last, has = v, true
-					suppliers[p]++
-				}
-			}
-			switch {
-			case has:
-				want[p] = []any{last}
-			case len(fileVals) > 0:
-				want[p] = fileVals
-			}
-		}
-		for _, p := range schema {
-			got := out.App.Get(p)
-			adm, expected := want[p]
-			if !expected {
-				if got != nil {
-					t.Fatalf("C15: key %q is supplied by no effective source but Get returns %v\n%s\neffective order %v", p, got, desc, effective)
-				}
-				continue
-			}
-			ok := false
-			for _, a := range adm {
-				if reflect.DeepEqual(canon(got), canon(a)) {
-					ok = true
-				}
-			}
-			if !ok {
-				t.Fatalf("C15: Get(%q) = %#v, the merge of the sources in loader order gives %v\n%s\neffective order %v (files first, others as added)", p, got, adm, desc, effective)
-			}
-		}
-		// prefix-bound twin: the subtree under every top-level key
-		for i, k := range topKeys {
-			sub := map[string]any{}
-			ambiguous, any1 := false, false
-			for p, adm := range want {
-				if p == k || strings.HasPrefix(p, k+".") {
-					any1 = true
-					if len(adm) > 1 {
-						ambiguous = true
+			// environment variables spelled like the keys must not matter
+			var envs []string
+			for _, p := range schema {
+				for _, name := range []string{strings.ToUpper(strings.ReplaceAll(p, ".", "_")), strings.ToUpper(strings.Split(p, ".")[0])} {
+					if _, exists := os.LookupEnv(name); !exists {
+						os.Setenv(name, "from-environment")
+						envs = append(envs, name)
 					}
-					sub[p] = adm[0]
 				}
 			}
-			if ambiguous {
-				continue
+			out := kit.RunApp(ops...)
+			for _, name := range envs {
+				os.Unsetenv(name)
 			}
-			got := consumer.Elem().Field(i).Interface()
-			var exp any
-			if any1 {
-				exp = nest(sub)[k]
+			os.Args = saved
+			var ss []string
+			for _, s := range srcs {
+				ss = append(ss, s.String())
 			}
-			if !reflect.DeepEqual(canon(got), canon(exp)) {
-				t.Fatalf("C15: field bound with prefix %q holds %#v, the merged configuration has %#v there\n%s", k, got, exp, desc)
+			desc := fmt.Sprintf("sources %s script %v round %d", strings.Join(ss, " | "), script, round)
+			if !out.OK() {
+				t.Fatalf("C15: start failed: %v\n%s", out, desc)
 			}
-		}
-		overlap, exclusive := false, false
-		for _, p := range schema {
-			if suppliers[p] >= 2 {
-				overlap = true
+			// reference: files first (any order among files), then the others in list order
+			effective := []int{}
+			var files, others []int
+			for _, i := range list {
+				if i == -1 {
+					if osargsUsed {
+						others = append(others, 0)
+					}
+					continue
+				}
+				if srcs[i].Kind == "file" {
+					files = append(files, i)
+				} else {
+					others = append(others, i)
+				}
 			}
-			if suppliers[p] == 1 {
-				exclusive = true
+			effective = append(append(effective, files...), others...)
+			want := map[string][]any{} // leaf -> admissible values
+			suppliers := map[string]int{}
+			for _, p := range schema {
+				var fileVals []any
+				var last any
+				has := false
+				for _, i := range files {
+					if v, ok := srcs[i].Leaves[p]; ok {
+						fileVals = append(fileVals, v)
+						suppliers[p]++
+					}
+				}
+				for _, i := range others {
+					if v, ok := srcs[i].Leaves[p]; ok {
+						last, has = v, true
+						suppliers[p]++
+					}
+				}
+				switch {
+				case has:
+					want[p] = []any{last}
+				case len(fileVals) > 0:
+					want[p] = fileVals
+				}
 			}
+			for _, p := range schema {
+				got := out.App.Get(p)
+				adm, expected := want[p]
+				if !expected {
+					if got != nil {
+						t.Fatalf("C15: key %q is supplied by no effective source but Get returns %v\n%s\neffective order %v", p, got, desc, effective)
+					}
+					continue
+				}
+				ok := false
+				for _, a := range adm {
+					if reflect.DeepEqual(canon(got), canon(a)) {
+						ok = true
+					}
+				}
+				if !ok {
+					t.Fatalf("C15: Get(%q) = %#v, the merge of the sources in loader order gives %v\n%s\neffective order %v (files first, others as added)", p, got, adm, desc, effective)
+				}
+			}
+			// prefix-bound twin: the subtree under every top-level key
+			for i, k := range topKeys {
+				sub := map[string]any{}
+				ambiguous, any1 := false, false
+				for p, adm := range want {
+					if p == k || strings.HasPrefix(p, k+".") {
+						any1 = true
+						if len(adm) > 1 {
+							ambiguous = true
+						}
+						sub[p] = adm[0]
+					}
+				}
+				if ambiguous {
+					continue
+				}
+				got := consumer.Elem().Field(i).Interface()
+				var exp any
+				if any1 {
+					exp = nest(sub)[k]
+				}
+				if !reflect.DeepEqual(canon(got), canon(exp)) {
+					t.Fatalf("C15: field bound with prefix %q holds %#v, the merged configuration has %#v there\n%s", k, got, exp, desc)
+				}
+			}
+			overlap, exclusive := false, false
+			for _, p := range schema {
+				if suppliers[p] >= 2 {
+					overlap = true
+				}
+				if suppliers[p] == 1 {
+					exclusive = true
+				}
+			}
+			var labels []string
+			for _, o := range script {
+				labels = append(labels, "op/"+o.Name)
+			}
+			if osargsUsed {
+				labels = append(labels, "default-args-loader")
+			}
+			if len(files) >= 2 {
+				labels = append(labels, "two-files")
+			}
+			if len(effective) >= 13 {
+				labels = append(labels, "13-or-more-loaders")
+			}
+			if round == 1 {
+				labels = append(labels, "same-options-second-app")
+			}
+			kit.Rec.Case(desc, len(effective) >= 2 && overlap && exclusive, dedup(labels)...)
 		}
-		var labels []string
-		for _, o := range script {
-			labels = append(labels, "op/"+o.Name)
-		}
-		if osargsUsed {
-			labels = append(labels, "default-args-loader")
-		}
-		if len(files) >= 2 {
-			labels = append(labels, "two-files")
-		}
-		kit.Rec.Case(desc, len(effective) >= 2 && overlap && exclusive, dedup(labels)...)
 	})
 }
 
